@@ -279,10 +279,10 @@ func (r *Run) Violation(signature, caseID, what string, scenario any) {
 	if len(what) > 3000 {
 		what = what[:3000] + "…"
 	}
-	if _, ok := r.known[signature]; ok {
-		r.knownSeen[signature]++
-		if r.knownSeen[signature] == 1 {
-			r.violations = append(r.violations, Violation{Signature: signature, What: what, Case: caseID, Known: true})
+	if k, ok := r.matchKnown(signature); ok {
+		r.knownSeen[k]++
+		if r.knownSeen[k] == 1 {
+			r.violations = append(r.violations, Violation{Signature: k, What: what, Case: caseID, Known: true})
 		}
 		return
 	}
@@ -319,6 +319,40 @@ func (r *Run) Violation(signature, caseID, what string, scenario any) {
 	r.violations = append(r.violations, Violation{Signature: signature, What: what, Case: caseID, Replay: path})
 	fmt.Printf("VIOLATION property=%s replay=%s\n", r.Prop, path)
 	fmt.Printf("  signature=%s case=%s\n  %s\n", signature, caseID, what)
+}
+
+// matchKnown finds the known-finding entry for a violation signature. An entry's signature may
+// contain '*' wildcards (each matches any run of characters); everything else is literal.
+func (r *Run) matchKnown(signature string) (string, bool) {
+	if _, ok := r.known[signature]; ok {
+		return signature, true
+	}
+	for k := range r.known {
+		if strings.Contains(k, "*") && globMatch(k, signature) {
+			return k, true
+		}
+	}
+	return "", false
+}
+
+func globMatch(pattern, s string) bool {
+	parts := strings.Split(pattern, "*")
+	if !strings.HasPrefix(s, parts[0]) {
+		return false
+	}
+	s = s[len(parts[0]):]
+	for i := 1; i < len(parts); i++ {
+		p := parts[i]
+		if i == len(parts)-1 {
+			return strings.HasSuffix(s, p)
+		}
+		k := strings.Index(s, p)
+		if k < 0 {
+			return false
+		}
+		s = s[k+len(p):]
+	}
+	return true
 }
 
 func asInt(v any) int {
